@@ -209,6 +209,23 @@ def check(ctx):
                                "%s mutates in place a value obtained from the memoised %s: the next stub generated in this process starts "
                                "from the already modified value" % (f.qualname, [c.qualname for c in an.callees(f, nn[0]) if c in cached][0]), node=n)
 
+    # ---------------------------------------------------------------- C20.3' the callable the stub describes is the one registered
+    # get_method_annotation reads the signature of field.method: the field has to keep the callable it was given, not a wrapper
+    # (a forwarding function has the signature (*args, **kwargs), whatever it wraps)
+    imf = model.method("InstanceMethodField", "__init__")
+    mp_ = imf.positional_params[1] if len(imf.positional_params) > 1 else None
+    nst = 0
+    for n_ in an.cfg(imf).nodes:
+        if n_.kind == "assign" and isinstance(n_.ast, ast.Assign) and any(
+                isinstance(t_, ast.Attribute) and t_.attr == "method" and isinstance(t_.value, ast.Name) and t_.value.id == imf.self_name for t_ in n_.ast.targets):
+            nst += 1
+            srcs_ = value_sources(imf, n_.ast.value, n_)
+            okm_ = bool(srcs_) and all(k_ == "param" and p_ == mp_ for k_, p_ in srcs_)
+            ctx.ob("method.kept-as-given", imf, n_.ast, okm_, "the registered callable is stored as it is" if okm_ else
+                   "InstanceMethodField keeps %s instead of the callable it was given: the stub is rendered from the signature of what is "
+                   "stored, not of what was registered" % ", ".join(sorted({ast.unparse(p_)[:40] if isinstance(p_, ast.AST) else str(p_) for _, p_ in srcs_})), node=n_)
+    ctx.need(nst >= 1, "InstanceMethodField.__init__ no longer stores the method")
+
     # ---------------------------------------------------------------- C20.4 partition
     g = an.cfg(gs)
     _partition(ctx, an, model, gs, g)
@@ -478,6 +495,19 @@ def _partition(ctx, an, model, gs, g):
            "the annotated attribute list misses virtual or persistent fields, or contains instance methods")
     okk = all(mem(t, "StringField") is True and mem(t, "Schema") is True and mem(t, "VirtualField") is False
               and mem(t, "InstanceMethodField") is False for t in ctor_tables)
+    # every kind of field that holds no value of its own (anything built on the virtual / instance-method markers, the classes
+    # that exist today and any that is added) stays out of the constructor
+    if okk:
+        markers = [model.classes[m] for m in ("VirtualFieldMixin", "InstanceMethodFieldMixin") if m in model.classes]
+        for k_ in sorted(model.classes):
+            kc = model.classes[k_]
+            if kc.node is not None and any(kc.is_subclass_of(m) and kc is not m for m in markers) and k_ not in ("VirtualField", "InstanceMethodField"):
+                if any(mem(t, k_) is True for t in ctor_tables):
+                    okk = False
+                    ctx.ob("partition.ctor-only-persistent", gs, "a %s in the constructor table" % k_, False,
+                           "a %s (a field without a value of its own: it derives from %s) becomes a constructor parameter -- the stub tests "
+                           "for the concrete class, not for the marker the library itself tests" % (
+                               k_, [m.name for m in markers if kc.is_subclass_of(m)][0]))
     ctx.ob("partition.ctor-only-persistent", gs, "constructor table(s) %s" % label(ctor_tables), okk,
            "constructor parameters are exactly the persistent fields" if okk else
            "the constructor parameter list contains virtual fields / instance methods or misses persistent fields")
